@@ -118,6 +118,9 @@ func main() {
 		os.Exit(2)
 	}
 
+	if ref, rerr := loadReferenceFunctions(filepath.Join(*verif, "checker", "expect_functions.json")); rerr == nil {
+		referenceFns = ref
+	}
 	t0 := time.Now()
 	p, err := loadProg(*repo)
 	if err != nil {
@@ -188,7 +191,10 @@ func (fb *fallback) get() *Prog {
 	return p2
 }
 
-func loadKnownFunctions(path string) (map[string]bool, error) {
+// referenceFns: "rel.declName" -> signature of every function of the reference tree.
+var referenceFns map[string]string
+
+func loadReferenceFunctions(path string) (map[string]string, error) {
 	b, err := os.ReadFile(path)
 	if err != nil {
 		return nil, err
@@ -197,9 +203,31 @@ func loadKnownFunctions(path string) (map[string]bool, error) {
 	if err := json.Unmarshal(b, &l); err != nil {
 		return nil, err
 	}
-	m := map[string]bool{}
+	m := map[string]string{}
 	for _, n := range l {
+		if i := strings.IndexByte(n, '\t'); i >= 0 {
+			m[n[:i]] = n[i+1:]
+		} else {
+			m[n] = ""
+		}
+	}
+	return m, nil
+}
+
+func loadKnownFunctions(path string) (map[string]bool, error) {
+	ref, err := loadReferenceFunctions(path)
+	if err != nil {
+		return nil, err
+	}
+	m := map[string]bool{}
+	for n := range ref {
 		m[n] = true
+	}
+	// a renamed reference function is not a new helper: keep it out of the inliner's reach
+	if theProg != nil {
+		for newKey := range theProg.renamedFrom {
+			m[newKey] = true
+		}
 	}
 	return m, nil
 }
